@@ -408,6 +408,11 @@ def stage_targeted(ctx: Ctx, progs):
                     if l[pos - 1:pos] == ' ' and pos - 1 > ind and l[pos - 2:pos - 1] == ' ':
                         judge_edit(ctx, 'header-edit', src, 'exec', (ln, pos - 1, ln, pos), '')
             judge_edit(ctx, 'header-edit', src, 'exec', (ln, colon, ln, colon), ' \\\n' + ' ' * (ind + 2))
+            # header text that closes the header itself and hides the rest of the line - the real colon, the scaffold of a header-only reparse - behind a comment
+            for a_, b_ in toks_[-2:]:
+                for tail in (': pass #', ': pass#', ':\n' + ' ' * (ind + 4) + 'pass #', ': x = 1  #'):
+                    judge_edit(ctx, 'header-hides-colon', src, 'exec', (ln, a_, ln, b_), l[a_:b_] + tail)
+            judge_edit(ctx, 'header-hides-colon', src, 'exec', (ln, colon, ln, colon), ': pass #')
         root = fst.FST(src, 'exec')
         for f in root.walk(True):
             if isinstance(f.a, ast.expr) and f.loc is not None and f.loc[0] == f.loc[2] and isinstance(f.parent.a, (ast.If, ast.While, ast.For, ast.With, ast.withitem, ast.ExceptHandler, ast.match_case, ast.Match)):
